@@ -3,7 +3,7 @@
 spec/ByteSet.tla is the contract (state = a set of byte strings); MC_ByteSet checks its laws exhaustively
 over 7 concrete prefix-structured keys; MC_ByteSetGen generates every insert/remove history of length L
 (B2) with the TLC-computed result of every step and a TABLE of the expected observable projection of every
-abstract state; harness bin c05 drives 40 subjects (ZiporaTrie presets, node-id API, legacy wrappers and their builders, DAWGs,
+abstract state; harness bin c05 drives 38 subjects (ZiporaTrie presets, node-id API, legacy wrappers and their builders, DAWGs,
 ParallelLoudsTrie, ParallelTrieBuilder); Trace_ByteSet validates every recorded execution.
 """
 import glob
